@@ -22,15 +22,15 @@ LIST_SETUPS = {
     'param-assign': ['a := [@h10@, @h11@]', 'b := [7, 8]', 'fn f(p, q) {', '    p = [1, 1]', '    q[0] = 77', '    return p', '}', 'c := [f(a, b), 5]'],
     'object-field': ['a := [@h10@, @h11@]', 'o := {"k": a}', 'b := o.k', 'c := [o["k"], 5]'],
 }
-LIST_OPS = ['a[0] = @h%d@', 'b[0] = @h%d@', 'c[0][1] = @h%d@', 'a += [@h%d@]', 'b += [@h%d@]', 'a[0:1] = [@h%d@]', 'c[0] = [@h%d@]', 'b = [@h%d@]', 'print(0)']
+LIST_OPS = ['a[0] = @h%d@', 'b[0] = @h%d@', 'c[0][1] = @h%d@', 'a += [@h%d@]', 'b += [@h%d@]', 'a[0:1] = [@h%d@]', 'c[0] = [@h%d@]', 'b = [@h%d@]', 'c[0] += [@h%d@]', 'c[0] += c[0]', 'print(0)']
 OBJ_SETUPS = {
-    'alias': ['a := {"k": @h10@, "j": @h11@}', 'b := a', 'c := {"in": a}'],
-    'spread-fresh': ['a := {"k": @h10@, "j": @h11@}', 'b := {a..}', 'c := {"in": {a..}}'],
-    'collect-fresh': ['a := {"k": @h10@, "j": @h11@}', '{..b} := a', 'c := {"in": a}'],
-    'nested-shared': ['e := {"z": @h10@}', 'a := {"k": e, "j": @h11@}', 'b := {a..}', 'c := {"in": b.k}'],
-    'arg-capture': ['a := {"k": @h10@, "j": @h11@}', 'fn get() {', '    return a', '}', 'fn id(x) {', '    return x', '}', 'b := id(get())', 'c := {"in": get()}'],
+    'alias': ['a := {"k": @h10@, "j": @h11@, "lst": [1]}', 'b := a', 'c := {"in": a}', 'l0 := a.lst'],
+    'spread-fresh': ['a := {"k": @h10@, "j": @h11@, "lst": [1]}', 'b := {a..}', 'c := {"in": {a..}}', 'l0 := a.lst'],
+    'collect-fresh': ['a := {"k": @h10@, "j": @h11@, "lst": [1]}', '{..b} := a', 'c := {"in": a}', 'l0 := a.lst'],
+    'nested-shared': ['e := {"z": @h10@}', 'a := {"k": e, "j": @h11@, "lst": [1]}', 'b := {a..}', 'c := {"in": b}', 'l0 := a.lst'],
+    'arg-capture': ['a := {"k": @h10@, "j": @h11@, "lst": [1]}', 'l0 := a.lst', 'fn get() {', '    return a', '}', 'fn id(x) {', '    return x', '}', 'b := id(get())', 'c := {"in": get()}'],
 }
-OBJ_OPS = ['a.k = @h%d@', 'b.k = @h%d@', 'c["in"].j = @h%d@', 'a["new"] = @h%d@', 'b.j += 1', 'c.in = {"k": @h%d@, "j": 0}', 'b = {"k": @h%d@}', 'print(0)']
+OBJ_OPS = ['a.k = @h%d@', 'a.lst += [@h%d@]', 'c["in"].lst += b.lst', 'b.k = @h%d@', 'c["in"].j = @h%d@', 'a["new"] = @h%d@', 'b.j += 1', 'c.in = {"k": @h%d@, "j": 0}', 'b = {"k": @h%d@}', 'print(0)']
 
 def mk(name, setup, ops, nsteps, obs):
     src = ['s%d := @h%d@' % (i, i) for i in range(nsteps)] + list(setup)
@@ -46,7 +46,7 @@ def templates(tier, seed=0):
     lobs = ['print(a)', 'print(b)', 'print(c)', 'print(a === b)', 'print(c[0] === a)', 'print(c[0] === b)', 'print(a == b)']
     for k, setup in LIST_SETUPS.items():
         ts.append(mk('list-' + k, setup, LIST_OPS, steps if k in ('alias', 'arg-return', 'concat-fresh') or tier == 'thorough' else 1, lobs))
-    oobs = ['print(a)', 'print(b)', 'print(c)', 'print(a === b)', 'print(c["in"] === a)', 'print(a == b)']
+    oobs = ['print(a)', 'print(b)', 'print(c)', 'print(l0)', 'print(a === b)', 'print(c["in"] === a)', 'print(a == b)', 'print(l0 === a.lst)']
     for k, setup in OBJ_SETUPS.items():
         ts.append(mk('obj-' + k, setup, OBJ_OPS, steps if k == 'alias' or tier == 'thorough' else 1, oobs))
     # immutable kinds: no operation on a copy is visible through the original
